@@ -23,13 +23,13 @@ PERM_SETS = {"quick": 24, "thorough": 12}
 CASES = {"quick": 1200 + PERM_SETS["quick"], "thorough": 12000 + PERM_SETS["thorough"]}
 FLOOR = {"quick": 1100, "thorough": 11000}
 FLOOR_COUNTERS = {
-    "quick": {"pointer_events": 20000, "gabriel_graphs_checked": 350, "permutation_fits": 24 * 120 + 1000, "periodic_fits": 300, "tie_free_relation_cases": 600},
-    "thorough": {"pointer_events": 250000, "gabriel_graphs_checked": 3500, "permutation_fits": 12 * 5040 + 10000, "periodic_fits": 3000, "tie_free_relation_cases": 6000},
+    "quick": {"pointer_events": 20000, "gabriel_graphs_checked": 350, "permutation_fits": 24 * 120 + 1000, "periodic_fits": 300, "tie_free_relation_cases": 600, "refitted_estimators": 350, "other_length_units": 250, "small_length_units": 100},
+    "thorough": {"pointer_events": 250000, "gabriel_graphs_checked": 3500, "permutation_fits": 12 * 5040 + 10000, "periodic_fits": 3000, "tie_free_relation_cases": 6000, "refitted_estimators": 3500, "other_length_units": 2500, "small_length_units": 1000},
 }
 RULE = (
     "case = point set (1-4 dimensions, 2-150 points [<= 60 in Gabriel mode]; generic / collinear / duplicated / lattice), "
     "distinct weights, mode cut-off (per-point cut-offs from 1e-3 to 10x the diameter, scale) | Gabriel (shell 1-4), optional "
-    "periodic cell. The last PERM_SETS case indices enumerate ALL n! input orders of one n-point set (n = 5 quick / 7 "
+    "periodic cell; 30% in other length units (x 2^-40..2^23, exact), 40% with the estimator fitted again after a fit on other data. The last PERM_SETS case indices enumerate ALL n! input orders of one n-point set (n = 5 quick / 7 "
     "thorough). non-trivial = more than one cluster and a point whose path has >= 2 steps; distinct by data hash."
 )
 ASSUMPTIONS = [
@@ -77,6 +77,17 @@ def gen(rng, tier, index):
         case["scale"] = float(gens.pick(rng, (1.0, 1.0, 0.5, 2.0)))
     else:
         case["shell"] = int(rng.integers(1, 5))
+    unit = 1.0
+    if rng.random() < 0.3:  # the same configuration in other length units (exact power of two)
+        unit = float(2.0 ** int(rng.integers(-40, 24)))
+        case["X"] = X * unit
+        if cell is not None:
+            case["cell"] = cell * unit
+        if mode == "cutoff":
+            case["cuts"] = case["cuts"] * unit**2
+    case["unit"] = unit
+    case["refit"] = bool(rng.random() < 0.4)  # the estimator is fitted again (other data in between)
+    case["X_other"] = _points(rng, n, d, "generic") * unit
     case["perms"] = [rng.permutation(n) for _ in range(3)]
     case["shifts"] = rng.integers(-3, 4, size=(n, d))
     return case
@@ -146,12 +157,14 @@ def _successors(D, w, i, case, G, cutsq, ta=0.0):
     return _near(D[i], cand, ta)
 
 
-def _fit(case, X, w, cuts=None, record=None, graphs=None):
+def _fit(case, X, w, cuts=None, record=None, graphs=None, est=None):
     import skmatter.clustering._quick_shift as mod
     from skmatter.clustering import QuickShift
 
     mp = {"cell_length": None if case["cell"] is None else case["cell"].copy()}
-    if case["mode"] == "cutoff":
+    if est is not None:
+        q = est
+    elif case["mode"] == "cutoff":
         q = QuickShift(dist_cutoff_sq=np.array(case["cuts"] if cuts is None else cuts, copy=True), scale=case["scale"], metric_params=mp)
     else:
         q = QuickShift(gabriel_shell=case["shell"], metric_params=mp)
@@ -192,7 +205,11 @@ def _partition(labels):
 def run(case, j):
     X, w, cell = case["X"], case["w"], case["cell"]
     n, d = X.shape
-    j.tag(f"mode:{case['mode']}", f"data:{case['kind']}", "periodic" if cell is not None else "free", "all-orders" if case["exhaustive_perm"] else "sampled")
+    if case.get("unit", 1.0) != 1.0:
+        j.note("other_length_units")
+        if case["unit"] < 1e-4:
+            j.note("small_length_units")
+    j.tag(f"mode:{case['mode']}", f"data:{case['kind']}", "unit:1" if case.get("unit", 1.0) == 1.0 else "unit:other", "periodic" if cell is not None else "free", "all-orders" if case["exhaustive_perm"] else "sampled")
     D = _dist2(X, cell)
     np.fill_diagonal(D, np.inf)
     cutsq = case["cuts"] * case["scale"] ** 2 if case["mode"] == "cutoff" else None
@@ -204,6 +221,17 @@ def run(case, j):
         j.note("periodic_fits")
     labels = np.asarray(q.labels_)
     centres = [int(c) for c in q.cluster_centers_idx_]
+    if case.get("refit"):
+        # an estimator with a past: the same object fitted on other data and then on these data again; the second
+        # life is judged (pointer events, graph, labels), and must reproduce the first
+        rng2 = np.random.default_rng(n)
+        j.lib("fit:other-data", _fit, case, case["X_other"], rng2.permutation(n).astype(float), None, None, None, q)
+        record, graphs = [], []
+        q = j.lib("fit:again", _fit, case, X, w, None, record, graphs, q)
+        j.ok("re-fitting the same estimator on the same data reproduces labels_ and centres", np.array_equal(labels, np.asarray(q.labels_)) and centres == [int(c) for c in q.cluster_centers_idx_], lambda: {"first": labels.tolist(), "again": np.asarray(q.labels_).tolist()})
+        labels = np.asarray(q.labels_)
+        centres = [int(c) for c in q.cluster_centers_idx_]
+        j.note("refitted_estimators")
     G = None
     if case["mode"] == "gabriel":
         must, may = _brute_gabriel(D, ta)
